@@ -9,7 +9,7 @@ Definition s_evil : bytes := [101;118;105;108].          (* "evil" *)
 
 (* /d/dest (empty directory); the receiver runs in /d with destination "dest" *)
 Definition wit_fs : node := Dir 493 None [(s_d, Dir 493 None [(s_dest, Dir 493 None [])])].
-Definition wit_cfg (check : bool) : config := mkcfg [s_d] s_dest false false 18 4096 check.
+Definition wit_cfg (check : bool) : config := mkcfg [s_d] s_dest false false 18 4096 check true.
 
 (* "C0644 5 ../evil\nhello\0" *)
 Definition wit_stream : bytes :=
